@@ -433,7 +433,14 @@ func init() {
 			paths = append(paths, p)
 		}
 		sort.Strings(paths)
+		inLockPkgs := map[string]bool{}
+		for _, r := range lockPkgs {
+			inLockPkgs["github.com/tableauio/tableau/"+r] = true
+		}
 		for _, pp := range paths {
+			if !inLockPkgs[pp] {
+				continue
+			}
 			pkg := pkgs[pp]
 			for _, f := range pkg.Syntax {
 				fname := filepath.Base(pkg.Fset.Position(f.Pos()).Filename)
